@@ -7,6 +7,7 @@ import CSD.Lemmas.PFCMeta
 import CSD.Lemmas.HashBlocks
 import CSD.Lemmas.HashRP
 import CSD.Lemmas.HashRPF
+import CSD.Lemmas.FM8
 
 namespace CSD.Props.C02
 open CSD CSD.PFC
@@ -119,5 +120,38 @@ theorem models_match_source_text :
     Generated.body_RePair_compareRP = SourceText.body_RePair_compareRP ∧
     Generated.body_HASHRPF_locate = SourceText.body_HASHRPF_locate ∧
     Generated.body_Hash_insert = SourceText.body_Hash_insert := ⟨rfl, rfl, rfl, rfl, rfl, rfl, rfl, rfl, rfl, rfl, rfl, rfl, rfl, rfl, rfl, rfl, rfl, rfl⟩
+
+
+/-! ### FMINDEX -/
+
+/-- `StringDictionaryFMINDEX::locate`: for every valid `S`, every suffix array `L` of its text and every
+index built from it, a string over `0x02 .. 0xFE` that is not a member is answered 0 — the backward search
+ends with an empty interval or at a symbol outside the alphabet — and no structure is read out of bounds. -/
+theorem fmindex_locate_absent {S : List Str} {L : List FM.Row} {d : FM.Dict} (hv : validDict S = true)
+    (hd : FM.DictOK S L d) (q : Str) (hq : q.all validByte = true) (habs : q ∉ S) : d.locate q = some 0 := by
+  rw [FM.locate_spec hv hd q hq, Spec.locate_not_mem habs]
+
+/-- The hypotheses are met by the model's own build for every `S` and every sampling step. -/
+theorem fmindex_hypotheses_hold (S : List Str) (step : Nat) :
+    FM.DictOK S (FM.sortRows (FM.mkText S)) (FM.buildDict S step) := FM.dictOK_buildDict S step
+
+example : validDict [[0x61, 0x62], [0x62]] = true ∧ (∃ L d, FM.DictOK [[0x61, 0x62], [0x62]] L d) ∧ ([0x61] : Str).all validByte = true :=
+  ⟨by decide, ⟨_, _, FM.dictOK_buildDict _ 3⟩, by decide⟩
+
+/-- The FM-index models were written against the current text of the C++ functions they mirror. -/
+theorem fm_models_match_source_text :
+    Generated.body_SSA_locate_id = SourceText.body_SSA_locate_id ∧
+    Generated.body_SSA_locateP = SourceText.body_SSA_locateP ∧
+    Generated.body_SSA_locate = SourceText.body_SSA_locate ∧
+    Generated.body_SSA_extract_id = SourceText.body_SSA_extract_id ∧
+    Generated.body_SSA_build_index = SourceText.body_SSA_build_index ∧
+    Generated.body_SSA_build_bwt = SourceText.body_SSA_build_bwt ∧
+    Generated.body_FMINDEX_ctor = SourceText.body_FMINDEX_ctor ∧
+    Generated.body_FMINDEX_locate = SourceText.body_FMINDEX_locate ∧
+    Generated.body_FMINDEX_extract = SourceText.body_FMINDEX_extract ∧
+    Generated.body_FMINDEX_locatePrefix = SourceText.body_FMINDEX_locatePrefix ∧
+    Generated.body_FMINDEX_locateSubstr = SourceText.body_FMINDEX_locateSubstr ∧
+    Generated.body_FMINDEX_build_ssa = SourceText.body_FMINDEX_build_ssa :=
+  ⟨rfl, rfl, rfl, rfl, rfl, rfl, rfl, rfl, rfl, rfl, rfl, rfl⟩
 
 end CSD.Props.C02
